@@ -104,6 +104,8 @@ def run_engine(pkg, tags, harnesses, tier, seed, known_open, extra, outdir):
            "-seed", str(seed), "-tier", tier, "-known", ",".join(known_open)]
     if tags:
         cmd += ["-tags", tags]
+    if "-maxviol" not in extra:
+        cmd += ["-maxviol", "2"]  # one reproducible counterexample decides; keeps runs on broken trees short
     cmd += extra
     t0 = time.time()
     r = subprocess.run(cmd, env=ENV, stdout=subprocess.PIPE, stderr=subprocess.STDOUT, text=True)
